@@ -25,6 +25,13 @@ for d in sorted(glob.glob(os.path.join(V, "seeded", "*"))):
     def short(s, n):
         s = re.sub(r"\s+", " ", str(s)).replace("|", "\\|")
         return s if len(s) <= n else s[:n - 1] + "…"
+    if m.get("neutralised_by"):
+        seeds.append("| %s | %s | %s | %s | %s |" % (os.path.basename(d), short(m.get("summary", ""), 230), short(m.get("needs_to_manifest", ""), 200),
+                     "*no longer a breaking change*: " + short(m["neutralised_by"], 200), "—"))
+        continue
+    def rank(c):   # own property first, replays before no-failing-input-found
+        return (not c.startswith(m.get("property", "?") + ":"), "no-failing-input-found" in c, c)
+    caught = sorted(set(caught), key=rank)
     seeds.append("| %s | %s | %s | %s | %s |" % (os.path.basename(d), short(m.get("summary", ""), 230), short(m.get("needs_to_manifest", ""), 200),
                  "; ".join(caught) if caught else "**missed** " + short(m.get("missed_note", ""), 160), "yes" if m.get("detected_with_replay") else ("no" if m.get("detected") else "—")))
 p = os.path.join(V, "DESIGN.md")
